@@ -74,12 +74,13 @@ type If struct {
 	T       []Trim // one per tag in source order: if, elsif..., else?, endif (nil = none)
 }
 type Case struct {
-	Subj    Expr
-	Whens   [][]Expr
-	Bodies  [][]Node
-	HasElse bool
-	Else    []Node
-	T       []Trim // case, when..., else?, endcase
+	Subj       Expr
+	Whens      [][]Expr
+	Bodies     [][]Node
+	HasElse    bool
+	Else       []Node
+	ElseBefore int    // the else clause is written before the last ElseBefore when clauses (0: at the end); it is the fallback wherever it stands
+	T          []Trim // case, then the clauses in source order, endcase
 }
 type For struct {
 	Tablerow bool
@@ -89,6 +90,7 @@ type For struct {
 	Offset   Expr // nil = absent
 	Limit    Expr
 	Cols     Expr
+	ModOrder int // the order in which the modifiers are written (0: reversed offset limit cols); what they select does not depend on it
 	Body     []Node
 	HasElse  bool
 	Else     []Node
@@ -380,7 +382,16 @@ func (st Style) write(sb *strings.Builder, nodes []Node) {
 			k := 0
 			sb.WriteString(st.tag(trimAt(n.T, k), "case"+st.gap(true)+st.ExprSource(n.Subj)))
 			k++
+			elseAt := len(n.Whens) - n.ElseBefore
+			writeElse := func() {
+				sb.WriteString(st.tag(trimAt(n.T, k), "else"))
+				k++
+				st.write(sb, n.Else)
+			}
 			for i, w := range n.Whens {
+				if n.HasElse && i == elseAt {
+					writeElse()
+				}
 				ss := make([]string, len(w))
 				for j, e := range w {
 					ss[j] = st.operand(e)
@@ -389,10 +400,8 @@ func (st Style) write(sb *strings.Builder, nodes []Node) {
 				k++
 				st.write(sb, n.Bodies[i])
 			}
-			if n.HasElse {
-				sb.WriteString(st.tag(trimAt(n.T, k), "else"))
-				k++
-				st.write(sb, n.Else)
+			if n.HasElse && elseAt >= len(n.Whens) {
+				writeElse()
 			}
 			sb.WriteString(st.tag(trimAt(n.T, k), "endcase"))
 		case For:
@@ -401,17 +410,26 @@ func (st Style) write(sb *strings.Builder, nodes []Node) {
 				name = "tablerow"
 			}
 			s := name + st.gap(true) + n.Var + st.gap(true) + "in" + st.gap(true) + st.ExprSource(n.Coll)
+			var mods []string
 			if n.Reversed {
-				s += st.gap(true) + "reversed"
+				mods = append(mods, "reversed")
 			}
 			if n.Offset != nil {
-				s += st.gap(true) + "offset:" + st.gap(false) + st.operand(n.Offset)
+				mods = append(mods, "offset:"+st.gap(false)+st.operand(n.Offset))
 			}
 			if n.Limit != nil {
-				s += st.gap(true) + "limit:" + st.gap(false) + st.operand(n.Limit)
+				mods = append(mods, "limit:"+st.gap(false)+st.operand(n.Limit))
 			}
 			if n.Cols != nil {
-				s += st.gap(true) + "cols:" + st.gap(false) + st.operand(n.Cols)
+				mods = append(mods, "cols:"+st.gap(false)+st.operand(n.Cols))
+			}
+			for i := range mods {
+				// ModOrder picks a rotation, and for odd values the reversal, of the canonical order
+				j := (i + n.ModOrder/2) % len(mods)
+				if n.ModOrder%2 == 1 {
+					j = len(mods) - 1 - j
+				}
+				s += st.gap(true) + mods[j]
 			}
 			k := 0
 			sb.WriteString(st.tag(trimAt(n.T, k), s))
